@@ -217,7 +217,7 @@ func withTimeout(f func()) (panicked string, hung bool) {
 	select {
 	case p := <-done:
 		return p, false
-	case <-time.After(20 * time.Second):
+	case <-time.After(4 * time.Minute): // (an operation that does not END; a busy machine must not look like one)
 		return "", true
 	}
 }
@@ -318,7 +318,11 @@ func suiteC02(c *ctx) {
 				c.emit("law.C02.no_crash "+xb(cs.content[:min(len(cs.content), 400)])+" "+strings.ReplaceAll(p, " ", "_"), "f")
 			}
 			if hung {
+				// the abandoned goroutine may still be working on the directory and writing lines: this
+				// shard ends here (everything emitted so far is kept)
 				c.emit("law.C02.no_hang "+xb(cs.content[:min(len(cs.content), 400)]), "f")
+				c.w.Flush()
+				os.Exit(0)
 			}
 			os.RemoveAll(base)
 			os.RemoveAll(base + "-data")
